@@ -286,7 +286,7 @@ func leakCheck(baseline map[string]bool, sock0 int, what string) *kit.Finding {
 }
 
 func TestC18_TCP(t *testing.T) {
-	p := kit.Prop[C18TCP]{ID: "C18", Name: "TCP", Quick: 240, Thorough: 20000, Gen: genC18TCP, Run: runC18TCP, Journal: true}
+	p := kit.Prop[C18TCP]{ID: "C18", Name: "TCP", Quick: 1200, Thorough: 150000, Gen: genC18TCP, Run: runC18TCP, Journal: true}
 	p.Execute(t)
 }
 
@@ -472,7 +472,7 @@ func runC18UDP(c C18UDP, info *kit.Info) *kit.Finding {
 }
 
 func TestC18_UDP(t *testing.T) {
-	p := kit.Prop[C18UDP]{ID: "C18", Name: "UDP", Quick: 400, Thorough: 30000, Gen: genC18UDP, Run: runC18UDP, Journal: true}
+	p := kit.Prop[C18UDP]{ID: "C18", Name: "UDP", Quick: 2400, Thorough: 300000, Gen: genC18UDP, Run: runC18UDP, Journal: true}
 	p.Execute(t)
 }
 
